@@ -229,12 +229,51 @@ Section CryptoProofs.
     destruct (f_wrap (fstate_after (cs_f cs) pre)); [|reflexivity]. destruct c; reflexivity.
   Qed.
 
-  (* ... and an event with per-event wrapper info keeps the wrapper derived when it started and its own salt / info *)
-  Corollary value_atomic_event_info cs pre tid c m post w0 id s i :
-    lookup tid (cs_thr (fst (crun cs pre))) = Some (Some {| o_wrap := Some (derive w0 id); o_salt := Some s; o_info := Some i |}) ->
-    nth_error (snd (crun cs (pre ++ AVal K tid c m :: post))) (List.length pre) = Some (Some (value_under (derive w0 id, s, i) c m)).
+  (* ... and an event WITH per-event wrapper info fixes its whole triple at the head of Process: wrapper derived from the
+     filter's wrapper of that moment, salt / info its own or else the filter's of that moment *)
+  Lemma event_opts_fixed st e o :
+    event_opts st (Some e) = Some o ->
+    exists t, key_in_force st (Some e) = Some t /\ forall st' c m, value_out st' o c m = Some (value_under t c m).
   Proof.
-    intros Hl. rewrite (value_atomic cs pre tid c m post _ Hl). reflexivity.
+    destruct e as [[id s] i]. unfold Crypto.event_opts, Crypto.key_in_force. destruct (f_wrap st) as [w|]; [|discriminate].
+    destruct id as [|b r]; [discriminate|]. intros H. injection H as <-. eexists. split; [reflexivity|].
+    intros st' c m. unfold Crypto.value_out, sel_wrap, sel_salt, sel_info. cbn [o_wrap o_salt o_info orelse nonnil]. destruct c; reflexivity.
+  Qed.
+
+  Definition not_start (tid : N) (a : action K) : Prop := match a with AStart _ t _ => t <> tid | _ => True end.
+
+  Lemma lookup_stable tid : forall sched cs, Forall (not_start tid) sched ->
+    lookup tid (cs_thr (fst (crun cs sched))) = lookup tid (cs_thr cs).
+  Proof.
+    induction sched as [|a r IH]; intros cs H; [reflexivity|]. inversion H as [|? ? Ha Hr]; subst.
+    cbn [Crypto.crun]. destruct (cstep cs a) as [cs1 out] eqn:Ec. specialize (IH cs1 Hr). destruct (crun cs1 r) as [cs2 outs]. cbn [fst] in *.
+    rewrite IH. destruct a as [w s i|t ewi|t c m]; cbn in Ec; injection Ec as <- _; try reflexivity.
+    cbn [cs_thr Crypto.lookup]. cbn [not_start] in Ha. destruct (N.eqb tid t) eqn:E; [apply N.eqb_eq in E; congruence|reflexivity].
+  Qed.
+
+  (* value_atomic for events with per-event wrapper info, over all schedules: whatever is rotated between the head of
+     Process and a value, and whatever other events do, the value is produced under the key in force when the event started *)
+  Theorem value_atomic_event cs pre1 tid e pre2 c m post :
+    Forall (not_start tid) pre2 ->
+    nth_error (snd (crun cs (pre1 ++ AStart K tid (Some e) :: pre2 ++ AVal K tid c m :: post))) (List.length pre1 + 1 + List.length pre2)
+      = Some (match key_in_force (fstate_after (cs_f cs) pre1) (Some e) with Some t => Some (value_under t c m) | None => None end).
+  Proof.
+    intros Hns.
+    replace (pre1 ++ AStart K tid (Some e) :: pre2 ++ AVal K tid c m :: post)
+      with ((pre1 ++ AStart K tid (Some e) :: pre2) ++ AVal K tid c m :: post) by (rewrite <- app_assoc; reflexivity).
+    replace (List.length pre1 + 1 + List.length pre2) with (List.length (pre1 ++ AStart K tid (Some e) :: pre2))
+      by (rewrite app_length; cbn [List.length]; lia).
+    assert (Hl : lookup tid (cs_thr (fst (crun cs (pre1 ++ AStart K tid (Some e) :: pre2))))
+                 = Some (event_opts (fstate_after (cs_f cs) pre1) (Some e))).
+    { rewrite crun_app. cbn [fst]. cbn [Crypto.crun Crypto.cstep].
+      destruct (crun {| cs_f := cs_f (fst (crun cs pre1)); cs_thr := (tid, event_opts (cs_f (fst (crun cs pre1))) (Some e)) :: cs_thr (fst (crun cs pre1)) |} pre2) as [cs2 outs] eqn:Er.
+      cbn [fst]. replace cs2 with (fst (crun {| cs_f := cs_f (fst (crun cs pre1)); cs_thr := (tid, event_opts (cs_f (fst (crun cs pre1))) (Some e)) :: cs_thr (fst (crun cs pre1)) |} pre2)) by (rewrite Er; reflexivity).
+      rewrite (lookup_stable tid pre2 _ Hns). cbn [cs_thr Crypto.lookup]. rewrite N.eqb_refl, crun_fstate. reflexivity. }
+    rewrite (value_atomic cs _ tid c m post _ Hl). f_equal.
+    destruct (event_opts (fstate_after (cs_f cs) pre1) (Some e)) as [o|] eqn:Eo.
+    - destruct (event_opts_fixed _ _ _ Eo) as [t [Hk Hv]]. rewrite Hk. apply Hv.
+    - pose proof (opts_key_in_force (fstate_after (cs_f cs) pre1) (Some e)) as P. rewrite Eo in P.
+      destruct (key_in_force (fstate_after (cs_f cs) pre1) (Some e)); [contradiction|reflexivity].
   Qed.
 End CryptoProofs.
 
@@ -272,17 +311,12 @@ Example roundtrip_instance :
   decrypt_value tK t_dec 1%N (frame_enc (t_enc 1 [9; 9] [0; 255; 128])%N) = Some [0; 255; 128]%N.
 Proof. vm_compute. reflexivity. Qed.
 
-(* An event WITH per-event wrapper info but WITHOUT its own salt keeps the wrapper derived from the base key it saw when
-   it started and falls back to the filter's salt at the time of each value: a rotation of wrapper and salt scheduled
-   between its start and a value gives that value the OLD derived wrapper with the NEW salt.  (value_atomic describes
-   this exactly; value_atomic_plain / value_atomic_event_info are the cases in which the triple is consistent.) *)
-Example ewi_fallback_mixes_refuted :
-  exists (sched : list (action tK)) (k : nat),
-    nth_error (snd (crun tK t_enc t_derive t_hkdf t_hmac {| cs_f := st0; cs_thr := [] |} sched)) k
-      = Some (Some (value_under tK t_enc t_hkdf t_hmac (t_derive 1 [3]%N, [8]%N, []%N) CHmac [1]%N)) /\
-    key_in_force tK t_derive st0 (Some ([3]%N, None, None)) = Some (t_derive 1 [3]%N, [7]%N, []%N) /\
-    key_in_force tK t_derive (rotate tK st0 (Some 2%N) (Some [8]%N) None) (Some ([3]%N, None, None)) = Some (t_derive 2 [3]%N, [8]%N, []%N).
-Proof.
-  exists [AStart tK 1%N (Some ([3]%N, None, None)); ARot tK (Some 2%N) (Some [8]%N) None; AVal tK 1%N CHmac [1]%N], 2%nat.
-  repeat split; vm_compute; reflexivity.
-Qed.
+(* The schedule that used to mix (old derived wrapper, new salt) — an event with per-event wrapper info and no salt of its own,
+   a rotation of wrapper and salt between its start and its value — now gives the value under the key in force at its start
+   (the as-was model and its refutation are kept in notes/redgreen/C16_event_fallback_as_was.v). *)
+Example ewi_fallback_fixed :
+  nth_error (snd (crun tK t_enc t_derive t_hkdf t_hmac {| cs_f := st0; cs_thr := [] |}
+                    [AStart tK 1%N (Some ([3]%N, None, None)); ARot tK (Some 2%N) (Some [8]%N) None; AVal tK 1%N CHmac [1]%N])) 2%nat
+    = Some (Some (value_under tK t_enc t_hkdf t_hmac (t_derive 1 [3]%N, [7]%N, []%N) CHmac [1]%N)) /\
+  key_in_force tK t_derive st0 (Some ([3]%N, None, None)) = Some (t_derive 1 [3]%N, [7]%N, []%N).
+Proof. split; vm_compute; reflexivity. Qed.
